@@ -11,7 +11,7 @@ from ..excflow import excflow
 from ..model import AnalysisError, FuncInfo, norm_src, walk_no_nested
 from ..pathq import fq
 from ..report import Ctx
-from ..symeval import BV, Obj, Opaque, SymEval
+from ..symeval import BV, Obj, Opaque, SymEval, _tag
 from ..tables import compare_table
 
 WP = '_wcparse'
@@ -453,21 +453,44 @@ def rule_range_safety(ctx: Ctx, rule: str) -> None:
     rc = repo.func(WP, 'WcParse._sequence_range_check')
     ev2 = SymEval(repo, inline=False, watch_calls=True)
     paths = ev2.tabulate(rc, {'result': Opaque('result'), 'last': Opaque('last')}, Obj((WP, 'WcParse')))
-    rows = set()
-    lt = set()
+    import re as _re
+    bad = []
+    n_rows = 0
     for p in paths:
-        cmpv = [v for a, v in p.decisions.items() if a.startswith('ord(') and ' < ' in a]
-        lt |= {a for a in p.decisions if a.startswith('ord(')}
+        atoms = [(a, v) for a, v in p.decisions.items() if a.count('ord(') == 2]
+        if len(atoms) != 1:
+            bad.append(f'{len(atoms)} comparisons of the two end points on a path')
+            continue
+        a, v = atoms[0]
+        m = _re.fullmatch(r'(ord\(.*\)) (<=|>=|<|>) (ord\(.*\))', a)
+        if not m:
+            bad.append(f'comparison not understood: {a[:80]}')
+            continue
+        L, op, R = m.group(1), m.group(2), m.group(3)
+        # which side is the new end point (`last`), which the start of the range already emitted (`result[-2]`)
+        if 'last' in L and 'result[-2]' in R:
+            f = {'<': lambda v1, v2: v2 < v1, '<=': lambda v1, v2: v2 <= v1, '>': lambda v1, v2: v2 > v1, '>=': lambda v1, v2: v2 >= v1}[op]
+        elif 'result[-2]' in L and 'last' in R:
+            f = {'<': lambda v1, v2: v1 < v2, '<=': lambda v1, v2: v1 <= v2, '>': lambda v1, v2: v1 > v2, '>=': lambda v1, v2: v1 >= v2}[op]
+        else:
+            bad.append(f'the comparison is not between the end point and the start of the range: {a[:80]}')
+            continue
+        n_rows += 1
         pops = sum(1 for (_n, name, _a, _k) in p.calls if name.replace("'", '') == 'result.pop')
-        apps = sum(1 for (_n, name, _a, _k) in p.calls if name.replace("'", '') == 'result.append')
-        rows.add((tuple(cmpv), p.ret, pops, apps))
-    ok = bool(lt) and all(a.startswith('ord(last') and '< ord(result[-2]' in a for a in lt) and \
-        rows == {((True,), True, 2, 0), ((False,), False, 0, 1)}
-    ctx.ob(rule, f'{WP}:WcParse._sequence_range_check/table', ok, repo.loc(WP, rc.node), 'v2 < v1: pop twice, return True; else append(last), return False',
-           f'atoms {lt}; rows {sorted(rows)}', witness="fnmatch('b', '[a-c]') True; '[c-a]' matches nothing and compiles")
-    cmp_src = [norm_src(n) for n in walk_no_nested(rc.node) if isinstance(n, ast.Compare) and isinstance(n.left, ast.Name) and isinstance(n.comparators[0], ast.Name)]
-    ctx.ob(rule, f'{WP}:WcParse._sequence_range_check/comparison', cmp_src == ['v2 < v1'], repo.loc(WP, rc.node), 'v2 < v1', str(cmp_src),
-           witness="`<=` would drop the legal one-character range [a-a]")
+        dels = [(_a) for (_n, name, _a, _k) in p.calls if name.replace("'", '') == 'result.__delitem__']
+        removed2 = pops == 2 or (pops == 0 and len(dels) == 1 and _tag(dels[0][0]).replace(' ', '') in ('-2:', '-2:None'))
+        apps = [(_a) for (_n, name, _a, _k) in p.calls if name.replace("'", '') == 'result.append']
+        for v1, v2 in ((1, 2), (2, 1), (1, 1)):
+            if f(v1, v2) != v:
+                continue  # this row is not taken for these end points
+            want_drop = v2 < v1
+            if want_drop and not (removed2 and not apps and p.ret is True):
+                bad.append(f'reversed range ({v2} < {v1}): pops={pops} dels={len(dels)} appends={len(apps)} returns {p.ret}')
+            if not want_drop and not (pops == 0 and not dels and len(apps) == 1 and _tag(apps[0][0]) == 'last' and p.ret is False):
+                bad.append(f'proper range ({v1} <= {v2}): pops={pops} dels={len(dels)} appends={len(apps)} returns {p.ret}')
+    ok = n_rows >= 2 and not bad
+    ctx.ob(rule, f'{WP}:WcParse._sequence_range_check/table', ok, repo.loc(WP, rc.node), 'v2 < v1: the start and the `-` are removed, return True; else append(last), return False',
+           f'{n_rows} rows agree' if ok else (sorted(set(bad))[0] if bad else f'{n_rows} rows'), witness="fnmatch('b', '[a-c]') True; '[c-a]' matches nothing and compiles; `<=` would drop the legal one-character range [a-a]")
     from . import seqrules
     seqrules.rule_sequence_epilogue(ctx, rule, which={'empty-class-replacements'})
     seqrules.rule_scan_loops(ctx, rule, which={'range-end-cleared-by-posix'})
